@@ -123,11 +123,10 @@ func fieldName(t types.Type, i int) string {
 
 // pathOf normalises v. Free variables are resolved into the enclosing function through the MakeClosure binding.
 func pathOf(v ssa.Value) APath {
-	pa := pathOf0(v)
-	return pa
+	return pathOf0(v, nil)
 }
 
-func pathOf0(v ssa.Value) APath {
+func pathOf0(v ssa.Value, phiSeen map[*ssa.Phi]bool) APath {
 	var fields []string
 	var indices []ssa.Value
 	depth := 0
@@ -219,11 +218,18 @@ func pathOf0(v ssa.Value) APath {
 			// all edges the same datum?
 			var first *APath
 			same := true
+			if phiSeen == nil {
+				phiSeen = map[*ssa.Phi]bool{}
+			}
+			if phiSeen[x] || len(phiSeen) > 8 {
+				return APath{v, fields, indices}
+			}
+			phiSeen[x] = true
 			for _, e := range x.Edges {
 				if e == ssa.Value(x) {
 					continue
 				}
-				pe := pathOf(e)
+				pe := pathOf0(e, phiSeen)
 				if first == nil {
 					first = &pe
 				} else if first.String() != pe.String() || first.Root != pe.Root {
